@@ -143,6 +143,12 @@ Fixpoint char_lcp (a b : str) : str :=
   | _, _ => []
   end.
 
+(** [str.casefold] / [str.lower] on one code point, ASCII part: 'A'..'Z' -> 'a'..'z', everything else unchanged.
+    This is exact for ASCII strings and wherever Unicode case folding is the identity (all inputs of the
+    correspondences); multi-character foldings (sharp s -> ss) are NOT modelled.  No theorem accepts a guard that
+    contains it; it exists so that a guard comparing case-folded strings has a meaning the refutation can compute with. *)
+Definition fold_char (c : N) : N := if (N.leb 65 c && N.leb c 90)%bool then c + 32 else c.
+
 (** ---------------------------------------------------------------- the guard language *)
 Inductive sx : Type :=
 | SAbs                                  (* abs_path *)
@@ -153,7 +159,15 @@ Inductive sx : Type :=
 | SJoin (a b : sx)                      (* os.path.join(a, b) *)
 | SCommon (a b : sx)                    (* os.path.commonpath([a, b]) *)
 | SIfEndsSep (c a b : sx)               (* a if c.endswith(os.sep) else b *)
-| SCommonPrefix (a b : sx).             (* os.path.commonprefix([a, b]): CHARACTER-wise; never accepted as a guard *)
+| SCommonPrefix (a b : sx)              (* os.path.commonprefix([a, b]): CHARACTER-wise; never accepted as a guard *)
+(* round 5 (seeded c18_8): the string transformations of the name-normalising helpers of filesys.py
+   ([_norm_name], [_folder_prefix]); a guard that compares TRANSFORMED strings is translated faithfully and never
+   accepted by [raise_sound] (what is compared is no longer the path handed to the OS) *)
+| SFold (a : sx)                        (* a.casefold() / a.lower(): ASCII letters folded, see [fold_char] *)
+| SUnbs (a : sx)                        (* a.replace('\\', '/') *)
+| SNorm (a : sx)                        (* os.path.normpath(a) *)
+| SIfEq (c d a b : sx)                  (* a if c == d else b *)
+| SIfEmpty (c a b : sx).                (* a if not c else b   (c the empty string) *)
 
 Inductive gx : Type :=
 | GConstrain                            (* self.constrain_path *)
@@ -178,6 +192,11 @@ Fixpoint seval (e : env) (x : sx) : str :=
   | SCommon a b => commonpath2 (seval e a) (seval e b)
   | SIfEndsSep c a b => if ends_sep (seval e c) then seval e a else seval e b
   | SCommonPrefix a b => char_lcp (seval e a) (seval e b)
+  | SFold a => map fold_char (seval e a)
+  | SUnbs a => map (fun c => if N.eqb c bslash then sep else c) (seval e a)
+  | SNorm a => normpath (seval e a)
+  | SIfEq c d a b => if str_eqb (seval e c) (seval e d) then seval e a else seval e b
+  | SIfEmpty c a b => match seval e c with [] => seval e a | _ => seval e b end
   end.
 
 Fixpoint geval (e : env) (g : gx) : bool :=
